@@ -248,6 +248,9 @@ type TypingCase struct {
 	// Spelling of the attribute name: HTML attribute names are ASCII case-insensitive, so HREF,
 	// Href and hReF all name the href attribute to a browser. "" = lower case.
 	Spelling string `json:"spelling,omitempty"`
+	// ElSpelling: the same for the element name; the parser wants a lower-case first letter, so
+	// the only other spelling of "form" tried is fORM ("a" has none).
+	ElSpelling string `json:"el_spelling,omitempty"`
 }
 
 // spell applies the case pattern: lower, upper, title, or alternating.
@@ -280,6 +283,10 @@ func (c TypingCase) source() string {
 		attr = "action"
 	}
 	attr = spell(attr, c.Spelling)
+	el := c.Element
+	if c.ElSpelling == "tail-upper" {
+		el = el[:1] + strings.ToUpper(el[1:])
+	}
 	var expr string
 	switch c.ExprType {
 	case "string":
@@ -301,21 +308,21 @@ func (c TypingCase) source() string {
 	var body string
 	switch c.Position {
 	case "plain":
-		body = fmt.Sprintf("<%s %s>x</%s>", c.Element, a, c.Element)
+		body = fmt.Sprintf("<%s %s>x</%s>", el, a, el)
 	case "with-others":
-		body = fmt.Sprintf("<%s id=\"i\" class={ \"c\" } %s data-x={ s }>x</%s>", c.Element, a, c.Element)
+		body = fmt.Sprintf("<%s id=\"i\" class={ \"c\" } %s data-x={ s }>x</%s>", el, a, el)
 	case "cond-then":
-		body = fmt.Sprintf("<%s\n\t\tif b {\n\t\t\t%s\n\t\t}\n\t>x</%s>", c.Element, a, c.Element)
+		body = fmt.Sprintf("<%s\n\t\tif b {\n\t\t\t%s\n\t\t}\n\t>x</%s>", el, a, el)
 	case "cond-else":
-		body = fmt.Sprintf("<%s\n\t\tif b {\n\t\t\tid=\"i\"\n\t\t} else {\n\t\t\t%s\n\t\t}\n\t>x</%s>", c.Element, a, c.Element)
+		body = fmt.Sprintf("<%s\n\t\tif b {\n\t\t\tid=\"i\"\n\t\t} else {\n\t\t\t%s\n\t\t}\n\t>x</%s>", el, a, el)
 	case "multiline":
-		body = fmt.Sprintf("<%s\n\t\tid=\"i\"\n\t\t%s\n\t>x</%s>", c.Element, a, c.Element)
+		body = fmt.Sprintf("<%s\n\t\tid=\"i\"\n\t\t%s\n\t>x</%s>", el, a, el)
 	case "after-spread":
-		body = fmt.Sprintf("<%s { attrs... } %s>x</%s>", c.Element, a, c.Element)
+		body = fmt.Sprintf("<%s { attrs... } %s>x</%s>", el, a, el)
 	case "nested":
-		body = fmt.Sprintf("<div><p>\n\t\tif b {\n\t\t\t<%s %s>x</%s>\n\t\t}\n\t</p></div>", c.Element, a, c.Element)
+		body = fmt.Sprintf("<div><p>\n\t\tif b {\n\t\t\t<%s %s>x</%s>\n\t\t}\n\t</p></div>", el, a, el)
 	case "in-loop":
-		body = fmt.Sprintf("for _, s2 := range []string{s} {\n\t\t<%s %s title={ s2 }>x</%s>\n\t}", c.Element, a, c.Element)
+		body = fmt.Sprintf("for _, s2 := range []string{s} {\n\t\t<%s %s title={ s2 }>x</%s>\n\t}", el, a, el)
 	}
 	return "package p\n\ntype myStr string\n\nfunc ident(s string) string { return s }\n\ntempl T(s string, u templ.SafeURL, b bool, attrs templ.Attributes) {\n\t" + body + "\n}\n"
 }
@@ -356,8 +363,14 @@ func TestPropTyping(t *testing.T) {
 	for _, el := range []string{"a", "form"} {
 		for _, pos := range []string{"plain", "with-others", "cond-then", "cond-else", "multiline", "after-spread", "nested", "in-loop"} {
 			for _, et := range []string{"string", "string-call", "named-string", "string-concat", "safeurl", "url-call", "safeurl-var"} {
-				for _, sp := range []string{"", "upper", "title", "alternating"} {
+				for _, sp := range []string{"", "upper", "title", "alternating", "el-tail-upper"} {
 					c := TypingCase{Element: el, Position: pos, ExprType: et, Spelling: sp}
+					if sp == "el-tail-upper" {
+						if el == "a" {
+							continue
+						}
+						c.Spelling, c.ElSpelling = "", "tail-upper"
+					}
 					n++
 					recTy.Eval(1)
 					recTy.Class(et)
